@@ -229,11 +229,19 @@ func run(c Case, cc *kit.Case) {
 
 	var all []written
 	forked := int64(0) // serials < forked are known to have been forked to every subscribed task
+	quiesceFailed := false
 	quiesce := func() bool {
 		want := len(all)
-		deadline := time.Now().Add(10 * time.Second)
+		bound := 10 * time.Second
+		if quiesceFailed {
+			// the universal observer already missed a point once in this case: the final
+			// comparison will report it; do not spend the long bound again
+			bound = 50 * time.Millisecond
+		}
+		deadline := time.Now().Add(bound)
 		for env.Sink.Count("o0.0") < want {
 			if time.Now().After(deadline) {
+				quiesceFailed = true
 				return false
 			}
 			time.Sleep(20 * time.Microsecond)
@@ -361,8 +369,18 @@ func run(c Case, cc *kit.Case) {
 	tm.Drain()
 	for _, et := range append(ets, obsET...) {
 		et.StopStats()
-		if err := et.Wait(); err != nil {
-			cc.Fail("task-error", "task ended with error: %v", err)
+		done := make(chan error, 1)
+		go func() { done <- et.Wait() }()
+		select {
+		case err := <-done:
+			if err != nil {
+				cc.Fail("task-error", "task ended with error: %v", err)
+				return
+			}
+		case <-time.After(20 * time.Second):
+			// Drain closes the stream of every task that is still subscribed: a task that does not
+			// end has lost its subscription while it was running
+			cc.Fail("routing/task-not-closed-by-drain", "task %s did not end within 20 s after TaskMaster.Drain: its input stream was never closed (the task master no longer knows its subscription)", et.Task.ID)
 			return
 		}
 	}
